@@ -23,6 +23,10 @@ static ARM_UNLOCKS: AtomicBool = AtomicBool::new(false);
 static UNLOCK_CALLS: AtomicUsize = AtomicUsize::new(0);
 static TRY_PANICS_ONCE: AtomicBool = AtomicBool::new(false);
 static WAITING: AtomicUsize = AtomicUsize::new(0);
+static PAUSE_NEXT_TRY: AtomicBool = AtomicBool::new(false);
+static IN_TRY: AtomicBool = AtomicBool::new(false);
+static RESUME_TRY: AtomicBool = AtomicBool::new(false);
+static UNLOCK_PANICS_ONCE: AtomicBool = AtomicBool::new(false);
 
 struct Bomb;
 impl Drop for Bomb {
@@ -50,10 +54,21 @@ unsafe impl RawMutex for Raw {
 		if TRY_PANICS_ONCE.swap(false, Ordering::SeqCst) {
 			panic!("raw try_lock panics");
 		}
+		if PAUSE_NEXT_TRY.swap(false, Ordering::SeqCst) {
+			// models a pre-emption right at the start of the raw try
+			IN_TRY.store(true, Ordering::SeqCst);
+			let start = Instant::now();
+			while !RESUME_TRY.load(Ordering::SeqCst) && start.elapsed() < Duration::from_secs(5) {
+				std::thread::yield_now();
+			}
+		}
 		!self.held.swap(true, Ordering::SeqCst)
 	}
 	unsafe fn unlock(&self) {
 		self.held.store(false, Ordering::SeqCst);
+		if UNLOCK_PANICS_ONCE.swap(false, Ordering::SeqCst) {
+			panic!("raw unlock releases, then panics");
+		}
 		if ARM_UNLOCKS.load(Ordering::SeqCst) {
 			// first armed unlock: an ordinary panic; second: a payload whose destructor panics; then quiet
 			match UNLOCK_CALLS.fetch_add(1, Ordering::SeqCst) {
@@ -151,8 +166,34 @@ fn kill_while_waiting() {
 	println!("kill_while_waiting;waiter_was_waiting={ok};fresh_thread_refused={refused_fresh};waiter_got={got}");
 }
 
+fn kill_during_try() {
+	static L: M = M::new(0);
+	let key = ThreadKey::get().unwrap();
+	let guard = L.lock(key);
+	// B: a try_lock that is pre-empted after the kill-flag test, inside the raw try
+	PAUSE_NEXT_TRY.store(true, Ordering::SeqCst);
+	let b = std::thread::spawn(|| {
+		let key = ThreadKey::get().unwrap();
+		catch_unwind(AssertUnwindSafe(|| L.try_lock(key).is_ok())).unwrap_or(false)
+	});
+	let in_try = wait_until(|| IN_TRY.load(Ordering::SeqCst));
+	// the holder's release panics after releasing: the lock is killed
+	UNLOCK_PANICS_ONCE.store(true, Ordering::SeqCst);
+	let _ = catch_unwind(AssertUnwindSafe(move || drop(guard)));
+	let fresh_refused = std::thread::spawn(|| {
+		let key = ThreadKey::get().unwrap();
+		catch_unwind(AssertUnwindSafe(|| L.try_lock(key).is_err())).unwrap_or(true)
+	})
+	.join()
+	.unwrap_or(false);
+	RESUME_TRY.store(true, Ordering::SeqCst);
+	let got = b.join().unwrap_or(false);
+	println!("kill_during_try;try_was_in_flight={in_try};fresh_try_refused={fresh_refused};in_flight_try_got_guard={got}");
+}
+
 fn main() {
 	std::panic::set_hook(Box::new(|_| {}));
 	let _ = std::thread::spawn(payload_bomb).join();
 	let _ = std::thread::spawn(kill_while_waiting).join();
+	let _ = std::thread::spawn(kill_during_try).join();
 }
